@@ -794,6 +794,9 @@ class AirTouch4(pyairtouch.api.AirTouch):
         self._zones: dict[int, At4Zone] = {}
 
         self._state = _AirTouchState.CLOSED
+        self._session = 0
+        """Incremented by shutdown(): tells a message handler that was suspended
+        across a shutdown() and a later init() that it belongs to the old session."""
         self._initialised_event = asyncio.Event()
         self._group_status_received_event = asyncio.Event()
         self._group_status_request_task: Optional[asyncio.Task[None]] = None
@@ -820,6 +823,7 @@ class AirTouch4(pyairtouch.api.AirTouch):
     @override
     async def shutdown(self) -> None:
         self._state = _AirTouchState.CLOSED
+        self._session += 1
         self._initialised_event.clear()
 
         if self._group_status_request_task:
@@ -925,6 +929,7 @@ class AirTouch4(pyairtouch.api.AirTouch):
     ) -> None:
         # Process messages according to the current state.
         # Unexpected messages are silently ignored.
+        session = self._session
         match message:
             case extended_msg.ExtendedMessage(
                 console_ver_msg.ConsoleVersionMessage()
@@ -969,7 +974,10 @@ class AirTouch4(pyairtouch.api.AirTouch):
                 self._state == _AirTouchState.INIT_AC_STATUS
             ):
                 await self._process_ac_status_message(ac_statuses)
-                if self._state != _AirTouchState.INIT_AC_STATUS:
+                if (
+                    self._session != session
+                    or self._state != _AirTouchState.INIT_AC_STATUS
+                ):
                     # shutdown() was called while the message was being processed.
                     return
                 # Move to the next state
@@ -983,7 +991,10 @@ class AirTouch4(pyairtouch.api.AirTouch):
                 self._state == _AirTouchState.INIT_AC_TIMER_STATUS
             ):
                 await self._process_ac_timer_status_message(ac_timer_statuses)
-                if self._state != _AirTouchState.INIT_AC_TIMER_STATUS:
+                if (
+                    self._session != session
+                    or self._state != _AirTouchState.INIT_AC_TIMER_STATUS
+                ):
                     # shutdown() was called while the message was being processed.
                     return
                 # Move to the next state
@@ -997,7 +1008,10 @@ class AirTouch4(pyairtouch.api.AirTouch):
                 self._state == _AirTouchState.INIT_GROUP_STATUS
             ):
                 await self._process_group_status_message(groups)
-                if self._state != _AirTouchState.INIT_GROUP_STATUS:
+                if (
+                    self._session != session
+                    or self._state != _AirTouchState.INIT_GROUP_STATUS
+                ):
                     # shutdown() was called while the message was being processed.
                     return
                 # Move to the next state
